@@ -33,7 +33,9 @@ if TYPE_CHECKING:
 
 
 from exabgp.bgp.message.notification import Notify
-from exabgp.bgp.message.update.attribute.aspath import SEQUENCE, SET, AS2Path
+from exabgp.bgp.message.open.asn import AS_TRANS
+from exabgp.bgp.message.update.attribute.aggregator import Aggregator
+from exabgp.bgp.message.update.attribute.aspath import CONFED_SEQUENCE, CONFED_SET, SEQUENCE, SET, AS2Path
 from exabgp.bgp.message.update.attribute.attribute import (
     Attribute,
     Discard,
@@ -368,6 +370,8 @@ class AttributeCollection(MutableMapping[int, Attribute]):
         if Attribute.CODE.INTERNAL_TREAT_AS_WITHDRAW in attributes:
             return attributes
 
+        attributes.reconcile_as4(negotiated)
+
         if Attribute.CODE.AS_PATH in attributes and Attribute.CODE.AS4_PATH in attributes:
             attributes.merge_attributes()
 
@@ -549,6 +553,40 @@ class AttributeCollection(MutableMapping[int, Attribute]):
         )
         return self.parse(left, negotiated)
 
+    def reconcile_as4(self, negotiated: Negotiated) -> None:
+        """RFC 6793: which of AGGREGATOR/AS4_AGGREGATOR and AS_PATH/AS4_PATH are to be believed"""
+        has_as4_path = Attribute.CODE.AS4_PATH in self
+        has_as4_aggregator = Attribute.CODE.AS4_AGGREGATOR in self
+        if not has_as4_path and not has_as4_aggregator:
+            return
+
+        if negotiated.asn4:
+            # section 6: a NEW speaker discards AS4_PATH and AS4_AGGREGATOR received from a NEW speaker
+            if has_as4_path:
+                self.remove(Attribute.CODE.AS4_PATH)
+            if has_as4_aggregator:
+                self.remove(Attribute.CODE.AS4_AGGREGATOR)
+            return
+
+        if not has_as4_aggregator or Attribute.CODE.AGGREGATOR not in self:
+            return
+
+        aggregator = self[Attribute.CODE.AGGREGATOR]
+        aggregator4 = self[Attribute.CODE.AS4_AGGREGATOR]
+        self.remove(Attribute.CODE.AS4_AGGREGATOR)
+        if not isinstance(aggregator, Aggregator) or not isinstance(aggregator4, Aggregator):
+            return
+
+        if aggregator.asn != AS_TRANS:
+            # section 4.2.3: AS4_AGGREGATOR and AS4_PATH are both ignored
+            if has_as4_path:
+                self.remove(Attribute.CODE.AS4_PATH)
+            return
+
+        # the AGGREGATOR is ignored and AS4_AGGREGATOR is the aggregating node
+        self.remove(Attribute.CODE.AGGREGATOR)
+        self.add(Aggregator.make_aggregator(aggregator4.asn, aggregator4.speaker))
+
     def merge_attributes(self) -> None:
         as2path_attr = self[Attribute.CODE.AS_PATH]
         as4path_attr = self[Attribute.CODE.AS4_PATH]
@@ -572,32 +610,43 @@ class AttributeCollection(MutableMapping[int, Attribute]):
             self.add(cached, key)
             return
 
-        len2 = len(as2path.as_seq)
-        len4 = len(as4path.as_seq)
+        # RFC 6793 section 4.2.3: the path length counts an AS_SET as one AS and ignores
+        # the confederation segments, which must not appear in AS4_PATH at all
+        def path_length(path: list[SET | SEQUENCE | CONFED_SEQUENCE | CONFED_SET]) -> int:
+            return sum(len(seg) if isinstance(seg, SEQUENCE) else 1 for seg in path if isinstance(seg, (SET, SEQUENCE)))
 
-        # RFC 4893 section 4.2.3
-        if len2 < len4:
-            as_seq = as2path.as_seq
+        as2segments = list(as2path.aspath)
+        as4segments = [seg for seg in as4path.aspath if isinstance(seg, (SET, SEQUENCE))]
+
+        keep = path_length(as2segments) - path_length(as4segments)
+
+        segments: list[SET | SEQUENCE | CONFED_SEQUENCE | CONFED_SET] = []
+        if keep < 0:
+            # more AS in AS4_PATH than in AS_PATH: AS4_PATH is ignored
+            segments = as2segments
         else:
-            as_seq = as2path.as_seq[:-len4]
-            as_seq.extend(as4path.as_seq)
+            # the leading AS of AS_PATH (added by OLD speakers) are prepended to AS4_PATH
+            for seg in as2segments:
+                if isinstance(seg, SEQUENCE):
+                    if keep <= 0:
+                        break
+                    segments.append(SEQUENCE(seg[:keep]))
+                    keep -= len(seg[:keep])
+                elif isinstance(seg, SET):
+                    if keep <= 0:
+                        break
+                    segments.append(seg)
+                    keep -= 1
+                else:
+                    # a confederation segment leading, or adjacent to, what is prepended
+                    segments.append(seg)
+            for seg in as4segments:
+                if segments and isinstance(seg, SEQUENCE) and isinstance(segments[-1], SEQUENCE):
+                    segments[-1] = SEQUENCE(list(segments[-1]) + list(seg))
+                else:
+                    segments.append(seg)
 
-        len2 = len(as2path.as_set)
-        len4 = len(as4path.as_set)
-
-        if len2 < len4:
-            as_set = as4path.as_set
-        else:
-            as_set = as2path.as_set[:-len4]
-            as_set.extend(as4path.as_set)
-
-        # Build segments from merged ASN lists
-        segments: list[SET | SEQUENCE] = []
-        if as_seq:
-            segments.append(SEQUENCE(as_seq))
-        if as_set:
-            segments.append(SET(as_set))
-        aspath = AS2Path.make_aspath(segments)
+        aspath = AS2Path.make_aspath(segments, asn4=True)
         self.add(aspath, key)
 
     def __hash__(self) -> int:
